@@ -29,7 +29,7 @@ FD = _d.FieldDescriptor
 PROFILE = grammar.profile(
     p_http=0.93, p_get=0.9, p_list=0.7, p_create=0.8, p_update=0.8, p_delete=0.7, p_custom=0.9, p_multi_var_path=0.6,
     p_sstream=0.4, p_cstream=0.0, p_bidi=0.0, p_lro=0.0, p_service_config=0.7, p_yaml=0.05, p_routing=0.1,
-    transports=["rest", "grpc+rest"], p_numeric_enums=0.5, p_additional_binding=0.5, p_reserved_field=0.1, p_reserved_path_var=0.3, p_required_enum=0.3, p_double_star_path=0.25)
+    transports=["rest", "grpc+rest"], p_numeric_enums=0.5, p_additional_binding=0.5, p_reserved_field=0.1, p_reserved_path_var=0.3, p_required_enum=0.3, p_double_star_path=0.25, p_mixed_foreign_io=0.35)
 
 BUDGET = {
     "quick": {"worlds": 150, "runs": 80, "wall_cap": 300, "world_wall": 90},
@@ -350,7 +350,7 @@ def candidates(spec):
     for fs, s, m in grammar.all_methods(spec):
         if m.get("client_streaming"):
             continue
-        if find_message(spec, m["input"]) is None and not m["input"].startswith(".google.iam"):
+        if find_message(spec, m["input"]) is None and not m["input"].startswith((".google.iam", ".google.protobuf.Empty")):
             continue
         if m["output"] == ".google.longrunning.Operation":
             continue
@@ -675,9 +675,15 @@ def shape(scenario, history):
 RESERVED_SAMPLE = {"type", "format", "license", "object", "class", "from", "in", "import", "max", "next", "filter"}
 
 
-def signature(spec, scenario, rule):
+def signature(spec, scenario, rule, op_id=None):
+    if rule == "required_default_missing" and scenario is not None:
+        used = {(op["service"], op["method"]) for a in scenario["actors"] for op in a["ops"] if op_id is None or op["id"] == op_id}
+        for fs, s, m in grammar.all_methods(spec):
+            if (s["name"], m["name"]) in used and m.get("http") and m["http"].get("body") == "*" and \
+                    any(a.get("body") != "*" for a in m["http"].get("additional", ())):
+                return "primary binding with body '*' and an additional binding with a narrower body"
     if rule == "duplicated_field" and scenario is not None:
-        used = {(op["service"], op["method"]) for a in scenario["actors"] for op in a["ops"]}
+        used = {(op["service"], op["method"]) for a in scenario["actors"] for op in a["ops"] if op_id is None or op["id"] == op_id}
         for fs, s, m in grammar.all_methods(spec):
             if (s["name"], m["name"]) in used and m.get("http"):
                 req = find_message(spec, m["input"]) or {"fields": []}
